@@ -221,8 +221,18 @@ def gen_targets(r, model, absent_ok=True):
     k = r.randint(1, min(4, len(names)))
     ts = r.sample(names, k)
     if absent_ok and r.chance(0.3):
-        ts.append(r.pick(["absent", "no/such/member", names[0] + "x", "zz"]))
+        cands = ["absent", "no/such/member", names[0] + "x", "zz"]
+        # an absent name that is a string prefix of a member's name without being one of its parent directories
+        n = r.pick(names)
+        if len(n) > 1:
+            cut = r.randint(1, len(n) - 1)
+            pre = n[:cut]
+            if pre not in names and n[cut] != "/" and not pre.endswith("/"):
+                cands += [pre, pre]
+        ts.append(r.pick(cands))
     ts = [t + "/" if r.chance(0.2) else t for t in ts]
+    if absent_ok and r.chance(0.06):
+        ts = []  # the empty subset: nothing is selected, nothing may be created
     return ts
 
 
